@@ -68,11 +68,18 @@ def key_paths(kind, ents):
     return keys
 
 
+TOP_KEYS = re.compile(r"(fsroot/)?(sys/devices/system/node|sys/devices/system/cpu/online|proc/cpuinfo)|(cpuid/)?hwloc-cpuid-info")
+
+
 def make_table(src):
     ents = path_table(src)
     kind = src["kind"]
     rem = [1 if removable(r, t) and expressible(r) else 0 for r, t in ents]
     key = [i for i in key_paths(kind, ents) if rem[i - 1]]
+    # removed on their own in every run and under every configuration: no NUMA information at all, no list of online CPUs,
+    # no /proc/cpuinfo, no summary of the CPUID dump; and the last PU file of a dump
+    pus = sorted((int(ents[i - 1][0].rsplit("pu", 1)[1]), i) for i in key if re.fullmatch(r"(cpuid/)?pu\d+", ents[i - 1][0]))
+    top = [i for i in key if TOP_KEYS.fullmatch(ents[i - 1][0]) or (pus and i == pus[-1][1])]
     ks = set(key)
     cand = [i + 1 for i, (r, t) in enumerate(ents) if rem[i] and core_area(kind, r) and i + 1 not in ks]
     rest = [i + 1 for i, (r, t) in enumerate(ents) if rem[i] and not core_area(kind, r) and i + 1 not in ks]
@@ -90,7 +97,7 @@ def make_table(src):
     classes = core_classes + rest_classes
     # share of the per-snapshot budget: every removal from a CPUID dump but the key ones makes hwloc refuse the dump as a whole
     w = 25 if kind == "x86" else 100
-    return {"id": src["id"], "kind": kind, "np": len(ents), "removable": rem, "type": [t for r, t in ents], "last": [r[-1] for r, t in ents], "key": key, "cand": cand, "rest": rest, "w": w,
+    return {"id": src["id"], "kind": kind, "np": len(ents), "removable": rem, "type": [t for r, t in ents], "last": [r[-1] for r, t in ents], "key": key, "top": top, "cand": cand, "rest": rest, "w": w,
             "classes": [v for k, v in classes], "ncore": len(core_classes)}, ents, [k for k, v in classes]
 
 
@@ -204,21 +211,32 @@ def diag(ctx, event_line):
             if f.endswith(".tla"):
                 shutil.copy(os.path.join(vlib.SPEC, f), d)
         open(os.path.join(d, "event.ndjson"), "w").write(event_line.strip() + "\n")
-        res = ""
-        for mod in ["DiagTopo"] + (["DiagXml"] if '"e":"xml_import"' in event_line else []):
+        res, outs = "", {}
+        mods = ["DiagTopo"] + (["DiagXml"] if '"e":"xml_import"' in event_line else [])
+        for mod in mods + ["DiagSnapshot"]:
+            if mod == "DiagSnapshot" and '"SetInclusions"' not in res:
+                continue
             open(os.path.join(d, mod + ".cfg"), "w").write("INIT Init\nNEXT Next\n")
             cmd = ["java", "-Xmx3g", "-XX:ParallelGCThreads=2", vlib.JAVA_OPTS, "-cp", vlib.TLA_CP, "tlc2.TLC", "-noGenerateSpecTE", "-workers", "1",
                    "-metadir", os.path.join(d, "meta" + mod), "-config", mod + ".cfg", mod + ".tla"]
-            rc, out = vlib.run(cmd, cwd=d, timeout=600, env={"EVENT": os.path.join(d, "event.ndjson")})
+            rc, out = vlib.run(cmd, cwd=d, timeout=600, env={"EVENT": os.path.join(d, "event.ndjson"), "DOCV2": "0"})
+            flat = re.sub(r"\s+", " ", out).replace("<< ", "<<").replace(" >>", ">>")
             if mod == "DiagTopo":
-                m = re.search(r'<<"ALLBAD", (\{.*?\})>>', out)
-                f = re.search(r'<<"FIRSTBAD", "(.*?)">>', out)
+                m = re.search(r'<<"ALLBAD", (\{.*?\})>>', flat)
+                f = re.search(r'<<"FIRSTBAD", "(.*?)">>', flat)
                 if m or f:
                     res = "WellFormed clauses false after the call: first=%s all=%s" % (f.group(1) if f else "?", m.group(1) if m else "?")
-            else:
-                m2 = re.search(r'<<"EQUIVDIFF", (.*)>>', out)
+            elif mod == "DiagXml":
+                m2 = re.search(r'<<"EQUIVDIFF", (<<.*?>>)>>', flat)
                 if m2:
                     res += " equiv_diff(object fields, object types, top-level fields)=" + m2.group(1)
+                m3 = re.search(r'<<"MEMCCSONLY", (TRUE|FALSE)>>', flat)
+                if m3:
+                    res += " only_moved_memory_child_complete_cpuset=" + m3.group(1)
+            else:
+                m4 = re.search(r'<<"MEMCCSINCLUSIONONLY", (TRUE|FALSE)>>', flat)
+                if m4:
+                    res += " setinclusions_only_memory_child_complete_cpuset=" + m4.group(1)
         return res
     except Exception:
         return ""
@@ -256,6 +274,17 @@ def explain(tracefile, rej):
                     diff = sorted(k for k in a if a[k] != b.get(k))
                     od = sorted({f for x, y in zip(a["objs"], b["objs"]) for f in x if x[f] != y.get(f)}) if "objs" in diff else []
                     return "two loads with the same key differ: top-level fields %s, object fields %s, objects %d vs %d" % (diff, od, a["n"], b["n"])
+    if e.get("e") == "load" and e.get("ret") == 0 and e.get("flags", 0) & 1:
+        evs = [json.loads(x) for x in open(tracefile, errors="replace") if x.startswith('{"e":"load"')]
+        for o in evs:
+            if o["filt"] == e["filt"] and o["flags"] == e["flags"] - 1 and o["ret"] == 0:
+                d, a = o["topos"][o["slot"]], e["topos"][e["slot"]]
+                if d.get("n") and a.get("n"):
+                    osd = lambda t, ty: sorted(x["os"] for x in t["objs"] if x["type"] == ty)
+                    return ("INCLUDE_DISALLOWED against the default load: default root cpuset %s nodeset %s, allowed sets with the flag %s %s; "
+                            "PUs of the default load missing with the flag %s, NUMA nodes missing %s"
+                            % (d["objs"][0]["cs"], d["objs"][0]["ns"], a["tacs"], a["tans"],
+                               sorted(set(osd(d, 4)) - set(osd(a, 4))), sorted(set(osd(d, 14)) - set(osd(a, 14)))))
     return ""
 
 
@@ -385,7 +414,7 @@ def run(ctx, replay=None):
             f.write(json.dumps(tab) + "\n")
     nsnap = len(srcs)
     base = {"TableFile": tf, "Sel": set(range(1, nsnap + 1)), "Seed": ctx.seed, "SimMode": False, "SimMax": 40,
-            "FlagSeqs": {(0, 1)}, "PairMax": 0, "CfgStride": 2, "NKeys": 5, "NSingles": 6, "NRest": 3, "NClasses": 8, "NRClasses": 3}
+            "FlagSeqs": {(0, 1)}, "PairMax": 0, "CfgStride": 2, "NKeys": 3, "NSingles": 6, "NRest": 3, "NClasses": 8, "NRClasses": 3}
     hists = []
     if not thorough:
         hists += run_model(ctx, base, "enum")
